@@ -51,6 +51,7 @@ type rRun struct {
 	overrun  bool
 	overflow bool
 	unowned  bool
+	leftover int
 	race     string
 }
 
@@ -137,6 +138,7 @@ func runTasksR(tasks []C19Task, rs *simrt.RSched, only int) *rRun {
 	}
 	run.stalled, run.deadlock, run.overflow, run.overrun = !ok, dl, ovf, ovr
 	run.unowned = rs.UnownedSeen
+	run.leftover = rs.Leftover
 	for _, st := range sts {
 		run.yields = append(run.yields, st.Yields)
 		run.acc = append(run.acc, st.AccYields)
@@ -161,6 +163,7 @@ type rEval struct {
 	switches      int
 	skip          string // why there was no interleaved run to judge
 	notRepeatable int
+	leftover      int // goroutines of the library left blocked by the runs of this case (pool workers): each holds an OS thread
 }
 
 var frameRe = regexp.MustCompile(`(?m)^\s+(\S+?)\(.*\)\n\s+(\S+\.go):(\d+) \+0x`)
@@ -224,6 +227,7 @@ func evalR(tasks []C19Task, mk func(solo []*rRun) *simrt.RSched) *rEval {
 		rs.AbortYields = 60_000_000
 		s := runTasksR(tasks, rs, ti)
 		ev.solo = append(ev.solo, s)
+		ev.leftover += s.leftover
 		if s.unowned {
 			ev.unowned = true
 			ev.skip = "unowned goroutines (solo)"
@@ -252,6 +256,7 @@ func evalR(tasks []C19Task, mk func(solo []*rRun) *simrt.RSched) *rEval {
 	is.AbortYields = 20*tot + 1_000_000
 	in := runTasksR(tasks, is, -1)
 	ev.inter = in
+	ev.leftover += in.leftover
 	_, ev.switches, _, _, _, _ = is.Stats()
 	if in.unowned {
 		ev.unowned = true
@@ -402,6 +407,7 @@ func rlaneMain(argv []string) int {
 	}
 	deadline := time.Now().Add(*budget)
 	next := int64(-1) // index at which a successor process is to continue (-1: done)
+	leaked, recycled := 0, false
 	var mu sync.Mutex
 	var caseStart time.Time
 	var curCase int64
@@ -497,6 +503,15 @@ func rlaneMain(argv []string) int {
 			w.report(&Violation{Property: "C19", Clause: cl, Op: "concurrent", Seed: *seed, Case: idx, Detail: ev.clauses[cl], Sites: ev.sites,
 				Replay: mustJSON(&laneRReplay{Lane: "R", Tasks: tasks, Sched: sched, Clause: cl})})
 		}
+		leaked += ev.leftover
+		if leaked > 96 && ev.abandon == "" && len(ev.clauses) == 0 {
+			// workers of package-level pools stay behind, blocked, after every run (package state is
+			// reset, so every case starts its own pool); each holds an OS thread: start over
+			w.St.Extra["laneR_processes_recycled_for_leftover_goroutines"]++
+			recycled = true
+			next = idx + int64(*wn)
+			break
+		}
 		if ev.abandon != "" {
 			// parked goroutines of this case stay behind (holding whatever they hold): the rest of
 			// this worker's share is done by a fresh process
@@ -517,7 +532,7 @@ func rlaneMain(argv []string) int {
 	mu.Unlock()
 	w.St.SimSeconds = time.Since(t0).Seconds()
 	w.St.Nontrivial = int64(len(w.hashes))
-	out := map[string]any{"stats": w.St, "next": next}
+	out := map[string]any{"stats": w.St, "next": next, "recycled": recycled}
 	var hs []uint64
 	for h := range w.hashes {
 		hs = append(hs, h)
@@ -576,6 +591,7 @@ func runLaneR(f *commonFlags, scratch string) (map[string]any, []*Violation, int
 				var doc struct {
 					Stats  *Stats   `json:"stats"`
 					Next   int64    `json:"next"`
+					Recyc  bool     `json:"recycled"`
 					Hashes []uint64 `json:"hashes"`
 				}
 				mu.Lock()
@@ -592,7 +608,7 @@ func runLaneR(f *commonFlags, scratch string) (map[string]any, []*Violation, int
 					distinct[h] = struct{}{}
 				}
 				mu.Unlock()
-				if doc.Next >= 0 {
+				if doc.Next >= 0 && !doc.Recyc {
 					withReport++
 				}
 				from = doc.Next
